@@ -167,4 +167,14 @@ CHECKS = {
         floors={"any": {"evaluations": 20000, "heap_shape_checks": 20000, "alloc": 5000, "dealloc": 5000}},
         assumptions=BEHAVIOUR_ASSUMPTIONS,
     ),
+
+    "C06": dict(
+        level="fault_enumeration",
+        rule="for every (state, operation instance) of the element / range / clone / lazy families up to the bound: one fault-free run counts the user-code invocations N inside the operation (element Drop, element Clone, replacement-iterator next), "
+             "then for each k=1..N the k-th invocation panics (caught by catch_unwind); plus replacement iterators whose len() is off by -2..=+2; after each fault: registry (no double destroy, no dead or duplicated element visible), canaries, guard/quarantine scans, "
+             "and a follow-up sequence (push, insert, iterate, pop, remove, clone, clear, drop) against a model re-synchronised to the visible contents; leaks are counted, not flagged; non-trivial = the injected fault actually fired; distinct = distinct (case, k) descriptors",
+        runs=[dict(mode="rel"), dict(mode="dbg", args=["--sub", "light"])],
+        floors={"any": {"evaluations": 20000, "faults_injected": 20000, "faults_in_drop": 2000, "faults_in_clone": 500, "faults_in_repl-next": 500, "lying_iterators": 1000}},
+        assumptions=BEHAVIOUR_ASSUMPTIONS + ["exactly one injected panic per execution (a second panic during unwinding aborts by language rule)"],
+    ),
 }
